@@ -105,7 +105,8 @@ def variants_for(path, style, per_module):
             if not fns:
                 continue
             for fn in fns:
-                m = {n: (f"{n}_r" if style == "suffix" else f"v{i}") for i, n in enumerate(names)}
+                star = {a.arg for a in (fn.args.vararg, fn.args.kwarg) if a is not None}
+                m = {n: (f"{n}_r" if style == "suffix" else f"v{i}") for i, n in enumerate(names) if n not in star}
                 r = Renamer(m)
                 fn.body = [r.visit(s) for s in fn.body]
                 if PARAMS:
